@@ -537,6 +537,7 @@ var propFalsifiers = map[string]func(w *World, fn *ssa.Function, r vcResult) *Co
 	"C12": func(w *World, fn *ssa.Function, r vcResult) *Counterexample { return refOrderFalsifier(w, "C12") },
 	"C13": func(w *World, fn *ssa.Function, r vcResult) *Counterexample { return refOrderFalsifier(w, "C13") },
 	"C05": shorthandFalsifier,
+	"C17": versValidFalsifier,
 	"C07": func(w *World, fn *ssa.Function, r vcResult) *Counterexample {
 		res := runSortHarness(w)
 		cx := &Counterexample{How: "real CLI run(<ecosystem> sort ...) on lists of valid versions (all permutations up to length 6, seeded shuffles of 64)", Output: truncate(lastLines(res.out, 8), 1500), Observed: "no difference observed"}
